@@ -12,6 +12,7 @@ walks the loaded syntax trees."""
 from __future__ import annotations
 
 import ast
+import copy
 from typing import Any, Dict, List, Optional
 
 
@@ -127,10 +128,21 @@ class Interp:
         return None
 
     # ---- helpers ------------------------------------------------------------------------------------------------------------
-    def method(self, name):
-        for n in (self.cls_node.body if self.cls_node is not None else ()):
+    def method(self, name, cls_node=None, depth=0):
+        cls_node = cls_node if cls_node is not None else self.cls_node
+        for n in (cls_node.body if cls_node is not None else ()):
             if isinstance(n, ast.FunctionDef) and n.name == name:
                 return n
+        # inherited: the base classes of the package, by name
+        if cls_node is not None and depth < 4:
+            for b in cls_node.bases:
+                bn = ast.unparse(b).split(".")[-1]
+                for mi_ in self.repo.modules.values():
+                    for c in mi_.tree.body:
+                        if isinstance(c, ast.ClassDef) and c.name == bn:
+                            r = self.method(name, c, depth + 1)
+                            if r is not None:
+                                return r
         return None
 
     def module_func(self, name):
@@ -323,6 +335,12 @@ class Interp:
         elif isinstance(st, ast.AnnAssign):
             if st.value is not None:
                 self.assign(st.target, self.eval(st.value, env), env)
+        elif isinstance(st, ast.AugAssign):
+            load = copy.deepcopy(st.target)
+            for n_ in ast.walk(load):
+                if hasattr(n_, "ctx"):
+                    n_.ctx = ast.Load()
+            self.assign(st.target, self.eval(ast.BinOp(left=load, op=st.op, right=st.value), env), env)
         elif isinstance(st, ast.Return):
             raise _Return(self.eval(st.value, env) if st.value is not None else None)
         elif isinstance(st, ast.If):
@@ -520,6 +538,10 @@ class Interp:
                 return {**l, **r}
             if all(isinstance(x, (int, float)) and not isinstance(x, bool) for x in (l, r)) and isinstance(e.op, (ast.Add, ast.Sub, ast.Mult)):
                 return {ast.Add: l + r, ast.Sub: l - r, ast.Mult: l * r}[type(e.op)]
+            if all(isinstance(x, (int, float)) and not isinstance(x, bool) for x in (l, r)) and isinstance(e.op, (ast.Div, ast.FloorDiv, ast.Mod)):
+                if r == 0:
+                    raise Raised("ZeroDivisionError")
+                return l / r if isinstance(e.op, ast.Div) else l // r if isinstance(e.op, ast.FloorDiv) else l % r
             raise Undecided("arithmetic on an input leaf")
         raise Undecided(f"expression {type(e).__name__}")
 
@@ -613,6 +635,16 @@ class Interp:
         if isinstance(obj, ObjV):
             if attr in obj.attrs:
                 return obj.attrs[attr]
+            if attr == "__setattr__":
+                def _set(a, k, o=obj):
+                    if len(a) != 2 or not isinstance(a[0], str):
+                        raise Undecided("__setattr__ with a computed name")
+                    o.attrs[a[0]] = a[1]
+                    return None
+
+                return _set
+            if attr == "__dict__":
+                return obj.attrs
             m = self.method(attr) if obj.cls == self.clsname else None
             if m is None and obj.cls == self.clsname:
                 c = self.class_const(attr)  # a class-level default the instance has not overwritten
@@ -684,6 +716,13 @@ class Interp:
 
     def builtin(self, recv, name, args, kwargs):
         if recv is None:
+            if name in ("deepcopy", "copy.deepcopy") and len(args) == 1:
+                return _deep(args[0])
+            if name == "setattr" and len(args) == 3 and isinstance(args[0], ObjV) and isinstance(args[1], str):
+                args[0].attrs[args[1]] = args[2]
+                return None
+            if name == "vars" and len(args) == 1 and isinstance(args[0], ObjV):
+                return args[0].attrs
             if name == "isinstance" and len(args) == 2:
                 ts = args[1] if isinstance(args[1], tuple) else (args[1],)
                 if not all(isinstance(t, TypeRef) for t in ts):
@@ -739,11 +778,50 @@ class Interp:
                 return [self.apply(args[0], list(t), {}) for t in zip(*its)]
             if name == "filter" and len(args) == 2:
                 return [x for x in self.iterate(args[1]) if self.truth(self.apply(args[0], [x], {}) if args[0] is not None else x)]
+            if name == "bool" and len(args) == 1 and not isinstance(args[0], (Sym, Coerced)):
+                return self.truth(args[0])
+            if name in ("takewhile", "itertools.takewhile", "dropwhile", "itertools.dropwhile") and len(args) == 2:
+                vals, out_, dropping = self.iterate(args[1]), [], True
+                for x in vals:
+                    t = self.truth(self.apply(args[0], [x], {}))
+                    if name.endswith("takewhile"):
+                        if not t:
+                            break
+                        out_.append(x)
+                    else:
+                        if dropping and t:
+                            continue
+                        dropping = False
+                        out_.append(x)
+                return out_
+            if name in ("chain", "itertools.chain"):
+                out_ = []
+                for a_ in args:
+                    out_.extend(self.iterate(a_))
+                return out_
+            if name in ("islice", "itertools.islice") and 2 <= len(args) <= 4 and all(isinstance(a_, int) or a_ is None for a_ in args[1:]):
+                import itertools as _it
+
+                return list(_it.islice(self.iterate(args[0]), *args[1:]))
+            if name == "sum" and 1 <= len(args) <= 2:
+                vals = self.iterate(args[0])
+                if not all(isinstance(x, (int, float)) for x in vals):
+                    raise Undecided("sum over input leaves") if any(isinstance(x, (Sym, Coerced)) for x in vals) else Raised("TypeError")
+                return sum(vals, args[1] if len(args) == 2 else 0)
+            if name in ("min", "max") and args and all(isinstance(x, (int, float)) for x in (self.iterate(args[0]) if len(args) == 1 and not isinstance(args[0], (int, float)) else args)):
+                vals = self.iterate(args[0]) if len(args) == 1 and not isinstance(args[0], (int, float)) else list(args)
+                if not vals:
+                    if "default" in kwargs:
+                        return kwargs["default"]
+                    raise Raised("ValueError")
+                return (min if name == "min" else max)(vals)
             if name == "any" and len(args) == 1:
                 return any(self.truth(x) for x in self.iterate(args[0]))
             if name == "all" and len(args) == 1:
                 return all(self.truth(x) for x in self.iterate(args[0]))
             if name == "getattr" and len(args) in (2, 3) and isinstance(args[1], str):
+                if len(args) == 3 and isinstance(args[0], ObjV) and args[1] not in args[0].attrs and self.method(args[1]) is None:
+                    return args[2]
                 try:
                     return self.getattr(args[0], args[1])
                 except Undecided:
@@ -876,6 +954,35 @@ class Interp:
                 return recv.format(*args)
             raise Undecided(f"str.{name}")
         raise Undecided(f"method {name} of {recv!r}")
+
+
+def _deep(v, memo=None):
+    """deepcopy on scenario values: objects and containers are copied, opaque leaves and constants are shared (immutable)"""
+    memo = {} if memo is None else memo
+    if id(v) in memo:
+        return memo[id(v)]
+    if isinstance(v, ObjV):
+        o = ObjV("copy of " + v.name, {}, v.cls)
+        memo[id(v)] = o
+        for k, x in v.attrs.items():
+            o.attrs[k] = x if callable(x) and not isinstance(x, (ObjV,)) else _deep(x, memo)
+        return o
+    if isinstance(v, dict):
+        d = {}
+        memo[id(v)] = d
+        for k, x in v.items():
+            d[k] = _deep(x, memo)
+        return d
+    if isinstance(v, list):
+        l = []
+        memo[id(v)] = l
+        l.extend(_deep(x, memo) for x in v)
+        return l
+    if isinstance(v, tuple):
+        return tuple(_deep(x, memo) for x in v)
+    if isinstance(v, set):
+        return set(v)
+    return v
 
 
 class _Break(Exception):
